@@ -272,6 +272,15 @@ Bind(st, env, names, vs) ==
         base == Len(st.cells)
     IN <<AllocCells(st, AdjustN(vs, n)), env \o [i \in 1..n |-> <<names[i], base + i>>]>>
 
+(* the call-depth limit (C05/C12): the host announces a limit with glimit(n); a Lua function is not entered while n
+   activations exist in the running thread.  The limit is abstract (the real one counts host frames too), so only
+   programs that recurse without bound are generated with it: any limit gives them the same trace.  Lua 5.1 keeps
+   spare frames for error handling (luaD_growCI), so a message handler that is running is not subject to the limit *)
+DepthExceeded(st, K) ==
+    /\ st.dl > 0
+    /\ Cardinality({i \in 1..Len(K) : K[i].w = "ret"}) >= st.dl
+    /\ ~\E i \in 1..Len(K) : K[i].w = "xpmark" /\ K[i].inh
+
 (* ---- function entry ----------------------------------------------------------- *)
 EnterClosure(N, st, fref, args, multi, ln, tc, oln) ==
     LET c == st.heap[fref]
@@ -586,6 +595,7 @@ Builtin(N, st, name, a, multi, ln) ==
            (IF a1[1] # "s" THEN Fault(st, ln) ELSE Raise(st, a1))
       [] name = "snap" -> RetV(st, <<>>, multi)      \* harness snapshot: no effect on the semantics
       [] name = "gcancel" -> RetV(st, <<>>, multi)   \* the host cancels the context: the uncancelled semantics just goes on
+      [] name = "glimit" -> (IF a1[1] = "n" THEN RetV([st EXCEPT !.dl = a1[2]], <<>>, multi) ELSE Fault(st, ln))   \* the host's call-depth limit, see DepthExceeded
       [] name = "gswap" -> RetV(st, <<>>, multi)     \* the host replaces the attached context: no effect on the semantics
       [] name = "dbg.getinfo" ->
            (* fields judged by C17: currentline, linedefined, lastlinedefined *)
@@ -775,7 +785,8 @@ Step(N, st) ==
       [] it.w = "call" ->
            (LET args == Top(V)  f == V[Len(V) - 1][1]
                 s1 == [s0 EXCEPT !.vals = PopN(V, 2)] IN
-            CASE f[1] = "f" -> (IF "tc" \in DOMAIN it THEN EnterClosure(N, s1, f[2], args, it.m, it.ln, it.tc, it.oln)
+            CASE f[1] = "f" -> (IF DepthExceeded(st, K0) THEN Fault(s1, it.ln)      \* "stack overflow": an ordinary error at the call
+                                ELSE IF "tc" \in DOMAIN it THEN EnterClosure(N, s1, f[2], args, it.m, it.ln, it.tc, it.oln)
                                 ELSE EnterClosure(N, s1, f[2], args, it.m, it.ln, 0, it.ln))
               [] f[1] = "bi" -> Builtin(N, s1, f[2], args, it.m, it.ln)
               [] f[1] = "wf" -> DoResume(s1, f[2], args, it.m, TRUE, it.ln)
@@ -856,7 +867,7 @@ Step(N, st) ==
 (* ---- initial state ------------------------------------------------------------------------------- *)
 GlobalNames == <<"emit", "type", "tostring", "tonumber", "select", "unpack", "rawget", "rawset", "rawequal",
                  "next", "pairs", "ipairs", "setmetatable", "getmetatable", "pcall", "xpcall", "error", "assert",
-                 "getfenv", "setfenv", "newproxy", "gret", "gcall", "gerr", "gpanic", "snap", "gcancel", "gswap">>
+                 "getfenv", "setfenv", "newproxy", "gret", "gcall", "gerr", "gpanic", "snap", "gcancel", "gswap", "glimit">>
 CoNames == <<"create", "resume", "yield", "status", "wrap", "running">>
 DbgNames == <<"getinfo", "getlocal", "setlocal", "getupvalue", "setupvalue">>
 StrNames == <<"sub", "len", "byte", "rep">>
@@ -880,7 +891,7 @@ InitState(root) ==
                    [o |-> "tab", kv |-> strkv, mt |-> 0],
                    [o |-> "tab", kv |-> dbgkv, mt |-> 0]>>,
         out |-> <<>>, seen |-> <<>>, mode |-> "run", res |-> <<>>, steps |-> 0,
-        cur |-> 0, mainK |-> <<>>, mainV |-> <<>>, G |-> 1, smt |-> 4]
+        cur |-> 0, mainK |-> <<>>, mainV |-> <<>>, G |-> 1, smt |-> 4, dl |-> 0]
 
 (* one machine step, with termination detection *)
 Finish(st) ==
